@@ -307,14 +307,96 @@ func raceC06(seed uint64, seconds int) {
 			}
 		}(bi)
 	}
+	// duels: two writers race registrations that exclude each other in EVERY sequential order (patterns identical up to a
+	// parameter name; the same pattern+method twice; a name-only variant against a further method of the live route). With
+	// WithLock(true) the outcome must be that of one of the two orders: exactly one call is rejected, and the table and the
+	// answers afterwards are the winner's. (Validation and insertion of one Handle are ONE critical section.)
+	var nDuels atomic.Int64
+	for di := 0; di < 2; di++ {
+		wg.Add(1)
+		go func(di int) {
+			defer wg.Done()
+			rg := rand.New(rand.NewPCG(seed, uint64(di)+900))
+			rules := []string{"", ":\\d+", ":[0-9]+(?:[a-f]|[A-F])*[0-9]*", ":digit"}
+			for !stop.Load() {
+				fr := mux.NewRouter("duel", raceCall, &H{base: "notFound"}, notAllowedBuilder, optionsBuilder, mux.WithLock(true), mux.WithDigitInterceptor("digit"))
+				fr.Handle("/health", &H{base: "user:1", hid: 1}, nil, "GET")
+				fr.Handle("/orders", &H{base: "user:2", hid: 2}, nil, "GET")
+				rule := rules[rg.IntN(len(rules))]
+				pa, pb := "/orders/{id"+rule+"}/items", "/orders/{oid"+rule+"}/items"
+				ma, mb := "GET", "POST"
+				switch rg.IntN(3) {
+				case 1: // the same pattern and method twice
+					pb, mb = pa, ma
+				case 2: // the variant against a further method of an already live route
+					fr.Handle(pa, &H{base: "user:3", hid: 3}, nil, "DELETE")
+				}
+				start := make(chan struct{})
+				var rej [2]bool
+				var dw sync.WaitGroup
+				for k, reg := range [2]struct{ p, m string }{{pa, ma}, {pb, mb}} {
+					dw.Add(1)
+					go func(k int, p, m string) {
+						defer dw.Done()
+						defer func() {
+							if recover() != nil {
+								rej[k] = true
+							}
+						}()
+						<-start
+						fr.Handle(p, &H{base: "user:" + strconv.Itoa(10+k), hid: 10 + k}, nil, m)
+					}(k, reg.p, reg.m)
+				}
+				close(start)
+				dw.Wait()
+				nDuels.Add(1)
+				nrej := 0
+				for _, b := range rej {
+					if b {
+						nrej++
+					}
+				}
+				if nrej != 1 {
+					rep.badf("duel: Handle(%s %s) and Handle(%s %s) raced on a locked router: %d of the 2 calls were rejected, every sequential order rejects exactly 1 (Routes: %v)", pa, ma, pb, mb, nrej, fr.Routes())
+					continue
+				}
+				win, wp, wm := 10, pa, ma
+				if rej[0] {
+					win, wp, wm = 11, pb, mb
+				}
+				wit := "/orders/5/items"
+				if res, fault := serveOnce(fr, wm, wit); fault != nil || res == nil || res.base != "user:"+strconv.Itoa(win) || res.pattern != wp {
+					rep.badf("duel: after the race %s %s is answered by %+v (fault %v), the accepted call registered user:%d on %s", wm, wit, res, fault, win, wp)
+				}
+				if pa != pb {
+					lost := pb
+					if rej[0] {
+						lost = pa
+					}
+					if ms, listed := fr.Routes()[lost]; listed && !hasMethod(ms, "DELETE") {
+						rep.badf("duel: the rejected pattern %s is listed by Routes(): %v", lost, fr.Routes())
+					}
+				}
+			}
+		}(di)
+	}
 	time.Sleep(time.Duration(seconds) * time.Second)
 	stop.Store(true)
 	wg.Wait()
-	st, _ := json.Marshal(map[string]int64{"serves": nServe.Load(), "writes": nWrite.Load(), "routes": nRoutes.Load(), "urls": nURL.Load(), "bursts": nBursts.Load(), "bad": int64(rep.bad), "writers": int64(writers), "readers": int64(readers)})
+	st, _ := json.Marshal(map[string]int64{"serves": nServe.Load(), "writes": nWrite.Load(), "routes": nRoutes.Load(), "urls": nURL.Load(), "bursts": nBursts.Load(), "duels": nDuels.Load(), "bad": int64(rep.bad), "writers": int64(writers), "readers": int64(readers)})
 	fmt.Printf("STATS %s\n", st)
 	if rep.bad > 0 {
 		os.Exit(1)
 	}
+}
+
+func hasMethod(ms []string, m string) bool {
+	for _, x := range ms {
+		if x == m {
+			return true
+		}
+	}
+	return false
 }
 
 func sameMap(a, b map[string]string) bool {
